@@ -579,7 +579,9 @@ func TestC16Pool(t *testing.T) {
 		t.Fatalf("%d sequential calls to one backend opened %d connections", n, d)
 	}
 	// backend 1 leaves the table
-	ends0, ends1 := atomic.LoadInt64(&b0.ends), atomic.LoadInt64(&b1.ends)
+	// (a connection to backend 0 that an earlier clean-up cycle scheduled for closing may
+	// still end during this window: "dropped" is observed as a new dial, not as an end)
+	begins0, ends1 := atomic.LoadInt64(&b0.begins), atomic.LoadInt64(&b1.ends)
 	set(0)
 	left := time.Now()
 	deadline := left.Add(5*time.Second + 2*time.Second + 4*time.Second) // cleanup interval + grpcshutdowntimeout + slack
@@ -592,8 +594,8 @@ func TestC16Pool(t *testing.T) {
 	if atomic.LoadInt64(&b1.ends) == ends1 {
 		t.Fatalf("the connection to a backend that left the table is still open %v later", time.Since(left))
 	}
-	if atomic.LoadInt64(&b0.ends) != ends0 {
-		t.Fatalf("the connection to a backend that is still in the table was dropped")
+	if d := atomic.LoadInt64(&b0.begins) - begins0; d != 0 {
+		t.Fatalf("the connection to a backend that is still in the table was dropped: %d new connection(s) were opened to it while another backend left the table", d)
 	}
 	if err := call("/pool.S1/M"); status.Code(err) != codes.NotFound {
 		t.Fatalf("call to the removed route: %v, want NotFound", err)
